@@ -15,5 +15,8 @@ echo "--- demo with change (expect failure):"
 (cd $wt && PYTHONPATH=$wt timeout 300 /venv/bin/python "$d/demo.py" >/dev/null 2>&1; echo "demo exit=$?")
 for p in "$@"; do
   echo "--- check $p"
-  (cd /verif && VERIF_REPO=$wt VERIF_OUT=/tmp/mutant-out timeout 3000 ./check $p ${TIER:+--tier $TIER} ${SLICES:+--slices $SLICES} 2>&1 | grep -v "^DRIFT" | cut -c1-500 | tail -6; echo "check exit=${PIPESTATUS[0]}")
+  full=$(mktemp /tmp/mutant-full-XXXXXX)
+  (cd /verif && VERIF_REPO=$wt VERIF_OUT=/tmp/mutant-out timeout 3000 ./check $p ${TIER:+--tier $TIER} ${SLICES:+--slices $SLICES} > $full 2>&1; echo "check exit=$?" >> $full)
+  grep "^VIOLATION\|^MACHINERY\|^C[0-9][0-9] \(quick\|thorough\)\|^check exit" $full | cut -c1-420 | tail -12
+  rm -f $full
 done
